@@ -650,6 +650,42 @@ def substitute(e, sub, memo):
 sub_ = sub
 
 
+# ------------------------------------------------------------------ structural digest (stable across processes)
+_dig = {}
+
+
+def digest(e):
+    """structural hash of a term (variable names, operators, constants); equal terms have equal digests in any process"""
+    import hashlib
+    if type(e) is not E:
+        return 'c%x' % e
+    r = _dig.get(e)
+    if r is not None:
+        return r
+    if e.op == 'var':
+        s = 'v' + e.a[0] + ':%d' % e.w
+    elif e.op == 'concat':
+        s = 'k(' + ','.join(digest(v) + '/%d' % w for v, w in e.a) + ')'
+    else:
+        s = e.op + '%d(' % e.w + ','.join(digest(a) if type(a) is E else 'c%x' % a for a in e.a) + ')'
+    r = hashlib.sha256(s.encode()).hexdigest()[:24]
+    _dig[e] = r
+    return r
+
+
+def cells_digest(cells):
+    import hashlib
+    h = hashlib.sha256()
+    for c in cells:
+        if type(c) is int:
+            h.update(b'%02x' % c)
+        elif c is None:
+            h.update(b'??')
+        else:
+            h.update(('[%s.%d]' % (digest(c[0]), c[1])).encode())
+    return h.hexdigest()[:24]
+
+
 # ------------------------------------------------------------------ z3
 _z3 = None
 
